@@ -209,14 +209,22 @@ def run_check(prop, tier, seed):
         print("INFRASTRUCTURE: rpyc does not import from %s" % REPO)
         return 2
     if rc == 3:
-        broken.append("translator: " + gen_out.split("INEXPRESSIBLE:")[-1].strip()[:300])
+        try:
+            with open(os.path.join(LEAN_DIR, ".lake", "gen_status.json")) as f:
+                status = json.load(f)
+        except Exception:  # noqa
+            status = {}
+        for fname in getattr(prop, "GEN", ["Brine.lean"]):
+            st = status.get(fname, "missing")
+            if st != "ok":
+                broken.append("translator: %s: %s" % (fname, st[:300]))
     elif rc != 0:
         print("INFRASTRUCTURE: gen_consts failed:\n" + gen_out)
         return 2
     # 2 ---------------------------------------------------------------- proofs
     props_file = os.path.join(LEAN_DIR, *prop.LEAN_MODULE.split(".")) + ".lean"
     obligations = theorem_names_in(props_file)
-    ok_build, build_out = lake_build(ctx, [prop.LEAN_MODULE, "rpycdrv"])
+    ok_build, build_out = lake_build(ctx, [prop.LEAN_MODULE] + list(getattr(prop, "DRIVERS", ["drv_brine"])))
     thms, axioms_seen, discharged = {}, set(), 0
     if ok_build:
         ok_audit, thms, audit_out = audit(ctx, prop.LEAN_MODULE, prop.NAMESPACE)
